@@ -243,7 +243,7 @@ Proof.
   clearbody s1.
   match goal with |- invS (if ?c then _ else _) => destruct c end; [auto|].
   match goal with |- invS (if ?c then _ else _) => destruct c end; [eapply invS_same; eauto|].
-  apply queue_S. eapply invS_same; eauto.
+  apply queue_S. destruct (0 <? Params.c09_start_erases_delay)%N; eapply invS_same; eauto.
 Qed.
 
 Lemma do_stop_S s : invS s -> invS (do_stop s).
